@@ -383,8 +383,28 @@ class C12(Property):
     id = "C12"
     title = "a rendered form, submitted unchanged, posts the element's own flat pairs"
     proof_module = "Proofs.C12"
-    theorems = []
+    theorems = [
+        "Flatland.C12.Proofs.flatName_spec",
+        "Flatland.C12.Proofs.flatName_child",
+        "Flatland.C12.Proofs.flatName_skip_none",
+        "Flatland.C12.Proofs.posts_flat_pair_input",
+        "Flatland.C12.Proofs.posts_flat_pair_button",
+        "Flatland.C12.Proofs.posts_flat_pair_textarea",
+        "Flatland.C12.Proofs.checked_iff",
+        "Flatland.C12.Proofs.label_raw_eq_control_raw",
+        "Flatland.C12.Proofs.label_targets",
+        "Flatland.C12.Proofs.submitted_orderPairs",
+        "Flatland.C12.Proofs.fresh_enabled",
+        "Flatland.C12.Proofs.fresh_input_posts",
+        "Flatland.C12.Proofs.C12_full_fails",
+    ]
     generated_obligations = []
+    level_text = "proof"
+    level_note = ("partial: password/file/image inputs are excluded (KF-C12-a, refuted for the full statement by C12_full_fails); "
+                  "option/select and Array membership, and the form round trip through from_flat/flatten (C01), rest on "
+                  "correspondence and the oracle")
+    technique = ("symbolic evaluation of the transform pipeline under Enabled/Disabled contexts + frame lemmas; browser "
+                 "successful-control rule as a function; order-independence of the rule under attribute sorting")
     trusted_base = [
         "the browser's successful-control rule is written twice (Lean `submitted`, Python `posted_of`) and compared on every render",
         "from_flat/flatten (closing the loop with C01) are exercised on the real code by the oracle only",
